@@ -32,4 +32,12 @@ def obligations(tier):
                      timeout=800, backend=PORTFOLIO, mem_gb=20, objbits=10,
                      desc='after open + definitions: %s then %s (symbolic arguments/payloads): only header link/crc rewrites and 0->offset head-table updates below the old end of file' % (OPS[a], OPS[b]),
                      bound='2 operations (fixed kinds per instance), payload length fixed (5 data bytes, symbolic content), one FSR signal, sources 0..2'))
+    # three operations with per-step payload lengths: payload-less chunks inside a list (their payload_prev_length / payload_length are 0, so a header
+    # rewrite that "repairs" zero fields shows only here).  Fourth-round seed C14c-m1 needs empty, empty, non-empty user data.
+    for (ops, lens) in [((5, 5, 5), (0, 0, 5)), ((5, 5, 5), (0, 5, 0))] + ([((3, 3, 3), (0, 0, 5)), ((5, 3, 5), (0, 0, 5))] if tier == 'thorough' else []):
+        o.append(Obl('O1_writeonce_3ops_%s_len%s' % ('_'.join(OPS[x] for x in ops), '_'.join(str(x) for x in lens)), 'c14_writeonce.c', units=['raw.c', 'core.c', 'track.c', 'writer.c', 'buffer.c'],
+                     stubs=['log_stub.c', 'membk.c', 'crcstub.c'], defines=HOOKS + ['KOPS=3', 'OP1=%d' % ops[0], 'OP2=%d' % ops[1], 'OP3=%d' % ops[2], 'PLEN1=%d' % lens[0], 'PLEN2=%d' % lens[1], 'PLEN3=%d' % lens[2]],
+                     unwind=100, typed_calloc=True, flags=['--max-field-sensitivity-array-size', '2048'], timeout=800, backend=PORTFOLIO, mem_gb=20, objbits=10,
+                     desc='after open + definitions: three operations %s with payload lengths %s (payload-less chunks inside a list): only header link/crc rewrites and 0->offset head-table updates below the old end of file' % (ops, lens),
+                     bound='3 operations (fixed kinds and payload lengths per instance, symbolic content), one FSR signal, sources 0..2'))
     return o
